@@ -61,13 +61,13 @@ def search_spec(ctx, res, t):
     t = strip_transparent(t)
     if t[0] == 'field' and t[2] == '0' and t[1][0] == 'downcast':
         t = strip_transparent(t[1][1])
-    if t[0] == 'call' and t[1].endswith('Iterator>::position') or (t[0] == 'call' and t[1].endswith('::position')):
+    if t[0] == 'call' and t[1].split('::')[-1] in ('position', 'find'):
         it = t[2][0]
         while isinstance(it, tuple) and it[0] in ('ref', 'deref'):
             it = it[1]
         # the search must range over the whole slot array: iter() directly on `nodes`, no sub-slice, no adaptor
         whole = False
-        if it[0] == 'call' and it[1].endswith('<impl [T]>::iter') or (it[0] == 'call' and it[1].endswith('::iter')):
+        if it[0] == 'call' and it[1].split('::')[-1] in ('iter', 'iter_mut'):
             src = it[2][0]
             while isinstance(src, tuple) and src[0] in ('ref', 'deref', 'cast'):
                 src = src[1]
@@ -120,6 +120,16 @@ def rule_bucket_add(ctx, res):
                     none_searches.extend(spec)
                 elif spec == ['same']:
                     some_same = True
+            elif rel == 'bool' and a[0] == 'call' and a[1].split('::')[-1] in ('is_some', 'is_none') and truth is not None:
+                # `search.is_some()` / `.is_none()` instead of a match on the search result
+                inner = strip_transparent(a[2][0])
+                if isinstance(inner, tuple) and inner[0] == 'call':
+                    spec = search_spec(ctx, res, inner)
+                    found = (a[1].split('::')[-1] == 'is_some') == bool(truth)
+                    if not found:
+                        none_searches.extend(spec)
+                    elif spec == ['same']:
+                        some_same = True
         ws = [e for e in p.effects if e[0] == 'write']
         ups = [e for e in p.effects if e[0] == 'call' and e[1] == 'node::Node::update']
         if bad_new:
@@ -135,7 +145,15 @@ def rule_bucket_add(ctx, res):
         tgt = strip_transparent(e[2][0])
         arg = strip_transparent(e[2][1])
         idx = tgt[2] if tgt[0] == 'index' else None
-        if not (some_same and idx is not None and search_spec(ctx, res, idx) == ['same'] and is_param(arg, 'new_node') and field_chain(tgt[1]) == ['nodes']):
+        by_index = idx is not None and search_spec(ctx, res, idx) == ['same'] and field_chain(tgt[1]) == ['nodes']
+        # .. or the entry handed out by `nodes.iter_mut().find(same node)` itself
+        found = tgt
+        while isinstance(found, tuple) and found and found[0] in ('ref', 'deref'):
+            found = strip_transparent(found[1])
+        by_find = (isinstance(found, tuple) and found[0] == 'field' and found[2] == '0' and isinstance(found[1], tuple) and found[1][0] == 'downcast'
+                   and isinstance(strip_transparent(found[1][1]), tuple) and strip_transparent(found[1][1])[0] == 'call' and strip_transparent(found[1][1])[1].split('::')[-1] == 'find'
+                   and search_spec(ctx, res, found) == ['same'])
+        if not (some_same and (by_index or by_find) and is_param(arg, 'new_node')):
             ok_up = False
         if [x for x in p.effects if x[0] == 'write']:
             ok_up = False
